@@ -322,10 +322,10 @@ func (c *Ctx) checkRuleRejects(rule string) {
 					continue
 				}
 				lk, isLk := t.(*ssa.Lookup)
-				if !isLk || dataMapParam(fn) == nil || lk.X != ssa.Value(dataMapParam(fn)) {
+				if !isLk || !isDataMapOf(fn, viaArg(cond, lk.X)) {
 					continue
 				}
-				if c.elementOfGetter(lk.Index, spec.getter) {
+				if c.elementOfGetterVia(cond, lk.Index, spec.getter) {
 					n++
 					if cond.True == spec.wantSet {
 						ok = true
@@ -390,7 +390,7 @@ func (c *Ctx) checkRuleRejects(rule string) {
 					continue
 				}
 				lk, isLk := t.(*ssa.Lookup)
-				if !isLk || dataMapParam(fn) == nil || lk.X != ssa.Value(dataMapParam(fn)) || !c.elementOfGetter(lk.Index, "RequiredIfNot") {
+				if !isLk || !isDataMapOf(fn, viaArg(cond, lk.X)) || !c.elementOfGetterVia(cond, lk.Index, "RequiredIfNot") {
 					continue
 				}
 				_ = ifi
@@ -415,6 +415,100 @@ func (c *Ctx) checkRuleRejects(rule string) {
 			c.R.Bad(rule, k2, c.M.Pos(fn.Pos()), "required_if_not with inverted or missing condition", "")
 		}
 	}
+}
+
+// viaArg: a value of the function whose outcome implies the condition stands, if it is a parameter of that function,
+// for the argument of the call (the caller's value); otherwise it is returned as it is.
+func viaArg(cond core.Cond, v ssa.Value) ssa.Value {
+	prm, ok := v.(*ssa.Parameter)
+	if !ok || cond.Via == nil {
+		return v
+	}
+	callee := core.StaticBody(&cond.Via.Call)
+	if callee == nil || prm.Parent() != callee {
+		return v
+	}
+	for i, q := range callee.Params {
+		if q == prm && i < len(cond.Via.Call.Args) {
+			return cond.Via.Call.Args[i]
+		}
+	}
+	return v
+}
+
+// isDataMapOf: v is the map of supplied fields that fn evaluates - its parameter of type map[string]any, or a field of
+// that type read out of a struct parameter (the particulars of a property handed over in a record).
+func isDataMapOf(fn *ssa.Function, v ssa.Value) bool {
+	if p := dataMapParam(fn); p != nil && v == ssa.Value(p) {
+		return true
+	}
+	if t := typeStr(v.Type()); t != "map[string]any" && t != "map[string]interface{}" {
+		return false
+	}
+	isParamStruct := func(x ssa.Value) bool {
+		for i := 0; i < 3; i++ {
+			switch y := x.(type) {
+			case *ssa.Parameter:
+				return y.Parent() == fn
+			case *ssa.UnOp:
+				x = y.X
+			case *ssa.Alloc:
+				// the local copy of a by-value struct parameter
+				if y.Referrers() != nil {
+					for _, r := range *y.Referrers() {
+						if st, ok := r.(*ssa.Store); ok && st.Addr == ssa.Value(y) {
+							if prm, ok := st.Val.(*ssa.Parameter); ok && prm.Parent() == fn {
+								return true
+							}
+						}
+					}
+				}
+				return false
+			default:
+				return false
+			}
+		}
+		return false
+	}
+	switch x := v.(type) {
+	case *ssa.Field:
+		return isParamStruct(x.X)
+	case *ssa.UnOp:
+		if fa, ok := x.X.(*ssa.FieldAddr); ok {
+			return isParamStruct(fa.X)
+		}
+	}
+	return false
+}
+
+// elementOfGetterVia: like elementOfGetter, for a lookup made inside a helper whose outcome implies the condition: the
+// index is an element of a slice parameter of the helper, and the call hands it the result of property.<getter>().
+func (c *Ctx) elementOfGetterVia(cond core.Cond, v ssa.Value, getter string) bool {
+	if c.elementOfGetter(v, getter) {
+		return true
+	}
+	if cond.Via == nil {
+		return false
+	}
+	var slice ssa.Value
+	switch x := v.(type) {
+	case *ssa.UnOp:
+		if ia, ok := x.X.(*ssa.IndexAddr); ok {
+			slice = ia.X
+		}
+	case *ssa.Extract:
+		if nx, ok := x.Tuple.(*ssa.Next); ok {
+			if rg, ok := nx.Iter.(*ssa.Range); ok {
+				slice = rg.X
+			}
+		}
+	}
+	if slice == nil {
+		return false
+	}
+	arg := viaArg(cond, slice)
+	call, ok := arg.(*ssa.Call)
+	return ok && c.calledMethodName(call) == getter
 }
 
 // elementOfGetter: v is the range element of a slice returned by property.<getter>().
